@@ -33,6 +33,31 @@ fn check_key_and_store(
     eff_rp: &str,
     seen_ids: &mut std::collections::HashSet<Vec<u8>>,
 ) -> Option<(Vec<u8>, Vec<u8>)> {
+    // what the store was handed besides the credential: the entities of the request
+    let (want_user, want_names): (Vec<u8>, Option<(String, String, String)>) = match st.op {
+        Op::Register(r) => {
+            let (rp_name, disp) = cer::misc_names(r.misc).map(|n| (n.clone(), n)).unwrap_or(("RP".to_string(), r.user_name.clone()));
+            (r.user_id.clone(), Some((rp_name, r.user_name.clone(), disp)))
+        }
+        Op::Make(m) => (m.user_id.clone(), None),
+        _ => (vec![], None),
+    };
+    for e in st.events.iter() {
+        if let crate::collab::Ev::Save { rp_entity, user_entity, names, rp_id, result: Ok(()), .. } = &e.ev {
+            rep.count("save_arguments_checked");
+            if rp_entity != eff_rp || rp_id != eff_rp {
+                rep.violate(&format!("{level}: the store was handed an RP entity / credential RP ID other than the effective RP ID"), format!("rp argument {rp_entity:?}, credential {rp_id:?}, effective {eff_rp:?}"), case.clone());
+            }
+            if user_entity != &want_user {
+                rep.violate(&format!("{level}: the store was handed a user entity other than the request's"), format!("{} vs {}", hex_short(user_entity), hex_short(&want_user)), case.clone());
+            }
+            if let Some((rn, un, dn)) = &want_names {
+                if names.0.as_deref() != Some(rn.as_str()) || names.1.as_deref() != Some(un.as_str()) || names.2.as_deref() != Some(dn.as_str()) {
+                    rep.violate(&format!("{level}: the store was handed display strings other than the request's"), format!("lengths rp {:?}/{} user {:?}/{} display {:?}/{}", names.0.as_ref().map(|s| s.len()), rn.len(), names.1.as_ref().map(|s| s.len()), un.len(), names.2.as_ref().map(|s| s.len()), dn.len()), case.clone());
+                }
+            }
+        }
+    }
     let mut xy = None;
     match oracle::cose_ec2_public(&at.key) {
         Ok((labels, x, y)) => {
